@@ -18,7 +18,7 @@
 use nitrogql_ast::{value::StringValue, TypeSystemDocument};
 use nitrogql_error::PositionedError;
 use nitrogql_parser::{parse_operation_document, parse_type_system_document};
-use nitrogql_plugin::{ModelPlugin, Plugin};
+use nitrogql_plugin::{GraphQLScalarsPlugin, ModelPlugin, Plugin};
 use nitrogql_printer::GraphQLPrinter;
 use nvh::gen::*;
 use nvh::gm::*;
@@ -125,8 +125,68 @@ fn print_just(x: &impl GraphQLPrinter) -> Result<String, String> {
 }
 
 /// generate.rs: remove_builtins, plugins' transform, print into a JsStringWriter, wrap
-fn real_server_module(resolved: &TypeSystemDocument, model_plugin: bool) -> (String, TsDoc) {
-    let plugins: Vec<Plugin> = if model_plugin { vec![Plugin::new(Box::new(ModelPlugin {}))] } else { vec![] };
+// ------------------------------------------------------------------------------------------------
+// plugin lists: the `plugins:` entry of a project config, as short names in the configured ORDER ("model" =
+// nitrogql:model-plugin, "scalars" = nitrogql:graphql-scalars-plugin — the two plugins load_plugins.rs knows natively).
+
+fn plugin_config_name(short: &str) -> &'static str {
+    if short == "model" { "nitrogql:model-plugin" } else { "nitrogql:graphql-scalars-plugin" }
+}
+fn has_model(plugins: &[String]) -> bool {
+    plugins.iter().any(|p| p == "model")
+}
+fn plugins_sexp(plugins: &[String]) -> Sexp {
+    Sexp::list(plugins.iter().map(|p| Sexp::str(p.as_str())).collect())
+}
+/// main.rs extend_loaded_schema: every plugin's `schema_addition`, in order (the graphql-scalars plugin has none for
+/// schemas given as .graphql files: its additions come from the `extensions` of a JavaScript schema)
+fn plugin_additions(plugins: &[String]) -> Vec<String> {
+    plugins.iter().filter(|p| *p == "model").map(|_| MODEL_PLUGIN_SDL.to_string()).collect()
+}
+/// load_plugins.rs
+fn real_plugins(plugins: &[String]) -> Vec<Plugin<'static>> {
+    plugins.iter().map(|p| if p == "model" { Plugin::new(Box::new(ModelPlugin {})) } else { Plugin::new(Box::<GraphQLScalarsPlugin>::default()) }).collect()
+}
+/// plugin list of a replay case: `plugins` (ordered short names), or the older `model_plugin` flag
+fn plugins_of_case(c: &Value) -> Vec<String> {
+    match c["plugins"].as_array() {
+        Some(a) => a.iter().filter_map(|x| x.as_str().map(|s| s.to_string())).collect(),
+        None => if c["model_plugin"].as_bool().unwrap_or(false) { vec!["model".to_string()] } else { vec![] },
+    }
+}
+/// every ordered list over {model, scalars} of length ≤ 3 with the model plugin at most once (a second model plugin
+/// defines `@model` twice; the checker rejects that project) — all subsets, both orders, duplicates
+fn all_plugin_lists() -> Vec<Vec<String>> {
+    let mut out: Vec<Vec<String>> = vec![vec![]];
+    let mut layer: Vec<Vec<String>> = vec![vec![]];
+    for _ in 0..3 {
+        let mut next = vec![];
+        for l in &layer {
+            for p in ["model", "scalars"] {
+                if p == "model" && has_model(l) {
+                    continue;
+                }
+                let mut n = l.clone();
+                n.push(p.to_string());
+                next.push(n);
+            }
+        }
+        out.extend(next.iter().cloned());
+        layer = next;
+    }
+    out
+}
+fn gen_plugin_list(rng: &mut Rng, model: bool) -> Vec<String> {
+    let mut l: Vec<String> = (0..rng.below(3)).map(|_| "scalars".to_string()).collect();
+    if model {
+        let at = rng.below(l.len() + 1);
+        l.insert(at, "model".to_string());
+    }
+    l
+}
+
+fn real_server_module(resolved: &TypeSystemDocument, plugins: &[String]) -> (String, TsDoc) {
+    let plugins: Vec<Plugin> = real_plugins(plugins);
     let mut buffer = String::new();
     buffer.push_str("// generated by nitrogql\n");
     buffer.push_str("export const schema = ");
@@ -238,6 +298,26 @@ fn diff_path(a: &Sexp, b: &Sexp, path: &mut Vec<String>) -> Option<(String, Opti
     }
 }
 
+/// directives only nitrogql understands, given the configured plugins: their definitions and applications must be gone
+fn nitrogql_only(plugins: &[String]) -> Vec<String> {
+    let mut v = vec!["nitrogql_ts_type".to_string()];
+    if has_model(plugins) {
+        v.push("model".to_string());
+    }
+    v
+}
+
+/// "definition" / "application" if the document defines / applies a directive of that name
+fn directive_occurrence(doc: &Sexp, name: &str) -> Option<&'static str> {
+    let Sexp::List(v) = doc else { return None };
+    match doc.head() {
+        Some("dirdef") if v.get(2).and_then(|x| x.as_str()) == Some(name) => return Some("definition"),
+        Some("dir") if v.get(1).and_then(|x| x.as_str()) == Some(name) => return Some("application"),
+        _ => {}
+    }
+    v.iter().find_map(|x| directive_occurrence(x, name))
+}
+
 fn is_dir_list(s: &Sexp) -> bool {
     matches!(s, Sexp::List(v) if v.iter().all(|x| x.head() == Some("dir")))
 }
@@ -343,6 +423,8 @@ struct Job {
     /// expected document (wire format, positions stripped, sorted when `sort`)
     expected: Sexp,
     sort: bool,
+    /// names of directives that must not occur in the re-parsed document at all (nitrogql-only directives)
+    forbidden: Vec<String>,
     case: Value,
     what: String,
 }
@@ -602,7 +684,10 @@ impl<'a> Ctx<'a> {
                         got = sort_items(&got);
                     }
                     let mut path = vec![];
-                    if let Some((p, leaves)) = diff_path(&j.expected, &got, &mut path) {
+                    let left = if poisoned { None } else { j.forbidden.iter().find_map(|n| directive_occurrence(&got, n).map(|w| (n.clone(), w))) };
+                    if let Some((n, w)) = left {
+                        self.rep.fail("O", &format!("{}:nitrogql-only-directive-left:{n}:{w}", j.stream_sig), &format!("{}: the text still holds the {w} of the nitrogql-only directive @{n}", j.what), j.case);
+                    } else if let Some((p, leaves)) = diff_path(&j.expected, &got, &mut path) {
                         let dir_class = if poisoned { None } else { dir_list_diff(&j.expected, &got, &mut vec![]) };
                         let (sig, detail) = match leaves {
                             _ if poisoned => (format!("{}:double-quote-not-escaped", j.stream_sig), format!("a string with a double quote is printed without escaping it; the text parses to a different document (first difference at {p})")),
@@ -668,6 +753,7 @@ impl<'a> Ctx<'a> {
                 text: printed,
                 expected: strip_pos(&model),
                 sort: false,
+                forbidden: vec![],
                 case,
                 what: format!("parse(print(A)) for a parsed {kname} document"),
             });
@@ -676,27 +762,26 @@ impl<'a> Ctx<'a> {
     }
 
     // ---------------------------------------------------------------- serverGraphqlOutput, library path
-    fn check_server(&mut self, cases: &[(Vec<String>, bool, Value)]) {
+    fn check_server(&mut self, cases: &[(Vec<String>, Vec<String>, Value)]) {
         struct S {
             case: Value,
             module: String,
             resolved: Sexp,
             stripped: Sexp,
-            plugin: bool,
+            plugins: Vec<String>,
         }
         let mut ss = vec![];
-        for (texts, plugin, origin) in cases {
+        for (texts, plugins, origin) in cases {
             let mut all = texts.clone();
-            if *plugin {
-                all.push(MODEL_PLUGIN_SDL.to_string());
-            }
-            let case = json!({"kind": "server", "texts": texts, "model_plugin": plugin, "origin": origin});
+            all.extend(plugin_additions(plugins));
+            let case = json!({"kind": "server", "texts": texts, "plugins": plugins, "model_plugin": has_model(plugins), "origin": origin});
+            self.rep.count(&format!("server:plugins:[{}]", plugins.join(",")));
             let r = with_schema(&all, |resolved, _| {
-                let (module, stripped) = real_server_module(resolved, *plugin);
+                let (module, stripped) = real_server_module(resolved, plugins);
                 (module, from_real_tsdoc(resolved).to_sexp(), stripped.to_sexp())
             });
             match r {
-                Ok((module, resolved, stripped)) => ss.push(S { case, module, resolved, stripped, plugin: *plugin }),
+                Ok((module, resolved, stripped)) => ss.push(S { case, module, resolved, stripped, plugins: plugins.clone() }),
                 Err(Stage::Panic(stage, p)) if stage == "after-schema" => {
                     self.rep.fail("O", "server:generate-panics", &format!("composing serverGraphqlOutput panics: {p}"), case);
                 }
@@ -710,10 +795,12 @@ impl<'a> Ctx<'a> {
         }
         let mut reqs = vec![];
         for s in &ss {
-            let m = Sexp::bool(s.plugin);
-            reqs.push(Sexp::call("gql.strip", vec![s.resolved.clone(), m.clone()]));
-            reqs.push(Sexp::call("gql.strip-spec", vec![s.resolved.clone(), m.clone()]));
-            reqs.push(Sexp::call("gql.server-module", vec![s.resolved.clone(), m]));
+            // K: the model composes the configured plugins in order, as generate.rs does; O: the specification strips every
+            // nitrogql-only directive of the configured plugins, whatever their order
+            let ps = plugins_sexp(&s.plugins);
+            reqs.push(Sexp::call("gql.strip-plugins", vec![s.resolved.clone(), ps.clone()]));
+            reqs.push(Sexp::call("gql.strip-spec", vec![s.resolved.clone(), Sexp::bool(has_model(&s.plugins))]));
+            reqs.push(Sexp::call("gql.server-module-plugins", vec![s.resolved.clone(), ps]));
             reqs.push(Sexp::call("js.cook", vec![Sexp::str(template_body(&s.module).unwrap_or(""))]));
         }
         let ans = self.drv.batch(&reqs);
@@ -748,7 +835,7 @@ impl<'a> Ctx<'a> {
                 }
                 Some(sdl) => {
                     self.rep.nontrivial(&format!("server|{}", s.module));
-                    jobs.push(Job { stream_sig: "server", kind: DocKind::Ts, text: sdl, expected, sort: true, case: s.case, what: "parse(cook(serverGraphqlOutput))".into() });
+                    jobs.push(Job { stream_sig: "server", kind: DocKind::Ts, text: sdl, expected, sort: true, forbidden: nitrogql_only(&s.plugins), case: s.case, what: "parse(cook(serverGraphqlOutput))".into() });
                 }
             }
         }
@@ -756,7 +843,7 @@ impl<'a> Ctx<'a> {
     }
 
     // ---------------------------------------------------------------- serverGraphqlOutput, real CLI
-    fn check_cli(&mut self, idx: usize, texts: &[String], plugin: bool, origin: Value) {
+    fn check_cli(&mut self, idx: usize, texts: &[String], plugins: &[String], origin: Value) {
         let cli = self.args.extra.get("cli").cloned().unwrap_or_default();
         if cli.is_empty() || !std::path::Path::new(&cli).exists() {
             self.rep.count("cli:binary-missing(skipped)");
@@ -769,12 +856,16 @@ impl<'a> Ctx<'a> {
             std::fs::write(root.join("schema").join(format!("s{i:02}.graphql")), t).expect("write schema");
         }
         let mut yaml = String::from("schema: \"schema/*.graphql\"\nextensions:\n  nitrogql:\n");
-        if plugin {
-            yaml.push_str("    plugins:\n      - \"nitrogql:model-plugin\"\n");
+        if !plugins.is_empty() {
+            yaml.push_str("    plugins:\n");
+            for p in plugins {
+                yaml.push_str(&format!("      - \"{}\"\n", plugin_config_name(p)));
+            }
         }
+        self.rep.count(&format!("cli:plugins:[{}]", plugins.join(",")));
         yaml.push_str("    generate:\n      schemaOutput: \"out/schema.d.ts\"\n      serverGraphqlOutput: \"out/server.ts\"\n      type:\n        scalarTypes:\n          Date: string\n          JSON: unknown\n");
         std::fs::write(root.join("graphql.config.yaml"), yaml).expect("write config");
-        let case = json!({"kind": "cli", "texts": texts, "model_plugin": plugin, "origin": origin.clone()});
+        let case = json!({"kind": "cli", "texts": texts, "plugins": plugins, "model_plugin": has_model(plugins), "origin": origin.clone()});
         let out = std::process::Command::new(&cli).arg("generate").current_dir(&root).output();
         let module = std::fs::read_to_string(root.join("out/server.ts"));
         let _ = std::fs::remove_dir_all(&root);
@@ -794,19 +885,16 @@ impl<'a> Ctx<'a> {
         self.rep.count("cli:projects");
         // the library composition on the same texts
         let mut all = texts.to_vec();
-        if plugin {
-            all.push(MODEL_PLUGIN_SDL.to_string());
-        }
-        let Ok((lib_module, resolved)) = with_schema(&all, |resolved, _| (real_server_module(resolved, plugin).0, from_real_tsdoc(resolved).to_sexp())) else {
+        all.extend(plugin_additions(plugins));
+        let Ok((lib_module, resolved)) = with_schema(&all, |resolved, _| (real_server_module(resolved, plugins).0, from_real_tsdoc(resolved).to_sexp())) else {
             self.rep.fail("O", "cli:accepts-what-library-rejects", "the CLI generated a server module for a schema the library pipeline rejects", case);
             return;
         };
         self.rep.evaluations += 1;
         self.rep.k_cases += 1;
-        let m = Sexp::bool(plugin);
         let ans = self.drv.batch(&[
-            Sexp::call("gql.server-module", vec![resolved.clone(), m.clone()]),
-            Sexp::call("gql.strip-spec", vec![resolved, m]),
+            Sexp::call("gql.server-module-plugins", vec![resolved.clone(), plugins_sexp(plugins)]),
+            Sexp::call("gql.strip-spec", vec![resolved, Sexp::bool(has_model(plugins))]),
             Sexp::call("js.cook", vec![Sexp::str(template_body(&module).unwrap_or(""))]),
         ]);
         let model_module = ok_str(&ans[0]).unwrap_or_default();
@@ -822,7 +910,7 @@ impl<'a> Ctx<'a> {
                 self.rep.o_cases += 1;
                 self.rep.fail("O", "server:template-broken", "the CLI module's template literal is ended early, starts a substitution, or holds an invalid escape", case);
             }
-            Some(sdl) => self.run_jobs(vec![Job { stream_sig: "server", kind: DocKind::Ts, text: sdl, expected, sort: true, case, what: "parse(cook(serverGraphqlOutput of the CLI))".into() }]),
+            Some(sdl) => self.run_jobs(vec![Job { stream_sig: "server", kind: DocKind::Ts, text: sdl, expected, sort: true, forbidden: nitrogql_only(plugins), case, what: "parse(cook(serverGraphqlOutput of the CLI))".into() }]),
         }
     }
 }
@@ -1384,10 +1472,10 @@ fn main() {
                 let kind = if c["doc"].as_str() == Some("op") { DocKind::Op } else { DocKind::Ts };
                 ctx.check_print_parse(kind, &[(c["text"].as_str().unwrap_or("").to_string(), json!("replay"))]);
             }
-            "server" => ctx.check_server(&[(texts(c), c["model_plugin"].as_bool().unwrap_or(false), json!("replay"))]),
+            "server" => ctx.check_server(&[(texts(c), plugins_of_case(c), json!("replay"))]),
             "cli" => {
-                ctx.check_cli(0, &texts(c), c["model_plugin"].as_bool().unwrap_or(false), json!("replay"));
-                ctx.check_server(&[(texts(c), c["model_plugin"].as_bool().unwrap_or(false), json!("replay"))]);
+                ctx.check_cli(0, &texts(c), &plugins_of_case(c), json!("replay"));
+                ctx.check_server(&[(texts(c), plugins_of_case(c), json!("replay"))]);
             }
             k => ctx.rep.notes.push(format!("unknown replay kind {k:?}")),
         }
@@ -1438,21 +1526,36 @@ fn main() {
     let corpus = server_corpus();
     let mut cli_cases = vec![];
     {
-        let cases: Vec<(Vec<String>, bool, Value)> = corpus.iter().enumerate().map(|(i, (t, p))| (t.clone(), *p, json!({"corpus": format!("directive-lists-{i}")}))).collect();
+        // every project under every ordered plugin list (all subsets of the natively available plugins, both orders,
+        // duplicates); a project that uses @model needs the model plugin somewhere in the list
+        let mut cases: Vec<(Vec<String>, Vec<String>, Value)> = vec![];
+        let mut cli_picks = vec![];
+        for (i, (t, uses_model)) in corpus.iter().enumerate() {
+            for l in all_plugin_lists() {
+                if *uses_model && !has_model(&l) {
+                    continue;
+                }
+                if i == 2 || i == 5 {
+                    cli_picks.push(cases.len());
+                }
+                cases.push((t.clone(), l.clone(), json!({"corpus": format!("directive-lists-{i}"), "plugins": l})));
+            }
+        }
         let before = ctx.rep.evaluations;
         ctx.check_server(&cases);
         if ctx.rep.evaluations - before != cases.len() as u64 {
             ctx.rep.notes.push("a project of the directive-list corpus was rejected by the real checker".into());
             ctx.rep.count("server:corpus-project-rejected");
         }
-        for (t, _, o) in &cases {
+        for (i, (t, _)) in corpus.iter().enumerate() {
             for f in t {
-                ctx.check_print_parse(DocKind::Ts, &[(f.clone(), o.clone())]);
+                ctx.check_print_parse(DocKind::Ts, &[(f.clone(), json!({"corpus": format!("directive-lists-{i}")}))]);
             }
         }
-        // two of them through the real CLI too
-        cli_cases.push(cases[2].clone());
-        cli_cases.push(cases[5].clone());
+        // two of the projects through the real CLI too, under every plugin list
+        for k in cli_picks {
+            cli_cases.push(cases[k].clone());
+        }
     }
 
     // ---- generated schemas: print-parse on the files, server module on the project
@@ -1460,25 +1563,31 @@ fn main() {
     let mut server_cases = vec![];
     let mut ts_texts = vec![];
     let mut op_texts = vec![];
-    let n_cli = args.budget(4, 25);
+    let n_cli = args.budget(6, 40);
+    let mut n_generated_cli = 0;
     for i in 0..n_schemas {
         let plugin = rng.chance(1, 3);
         let unfaithful = rng.chance(1, 4);
         let (texts, schema, feats) = gen_schema_texts(&mut rng, plugin, unfaithful);
+        // the project's `plugins:` list: the model plugin (always when the schema uses @model, sometimes unused) among 0–2
+        // entries of the graphql-scalars plugin, at any place
+        let with_model = plugin || rng.chance(1, 5);
+        let plugins = gen_plugin_list(&mut rng, with_model);
         for f in &feats {
             ctx.rep.count(&format!("schema:feature:{f}"));
         }
         let origin = json!({"generated": i, "seed": args.seed});
         if i < 2 {
-            ctx.rep.sample(json!({"kind": "server", "texts": texts, "model_plugin": plugin}));
+            ctx.rep.sample(json!({"kind": "server", "texts": texts, "plugins": plugins, "model_plugin": plugin}));
         }
         for t in &texts {
             ts_texts.push((t.clone(), origin.clone()));
         }
-        if cli_cases.len() < n_cli + 2 && i % 7 == 0 {
-            cli_cases.push((texts.clone(), plugin, origin.clone()));
+        if n_generated_cli < n_cli && i % 7 == 0 {
+            n_generated_cli += 1;
+            cli_cases.push((texts.clone(), plugins.clone(), origin.clone()));
         }
-        server_cases.push((texts, plugin, origin.clone()));
+        server_cases.push((texts, plugins, origin.clone()));
         // operation documents against this schema
         let cfg = {
             let mut c = GenCfg::default();
@@ -1523,10 +1632,10 @@ fn main() {
         s.push_str("}\n");
         s
     };
-    ctx.check_server(&[(vec![fixed.clone()], false, json!("fixed-hostile-project"))]);
-    cli_cases.insert(0, (vec![fixed], false, json!("fixed-hostile-project")));
-    for (i, (texts, plugin, origin)) in cli_cases.into_iter().enumerate() {
-        ctx.check_cli(i, &texts, plugin, origin);
+    ctx.check_server(&[(vec![fixed.clone()], vec![], json!("fixed-hostile-project"))]);
+    cli_cases.insert(0, (vec![fixed], vec![], json!("fixed-hostile-project")));
+    for (i, (texts, plugins, origin)) in cli_cases.into_iter().enumerate() {
+        ctx.check_cli(i, &texts, &plugins, origin);
     }
     rep.write(&args);
 }
